@@ -170,9 +170,9 @@ def file_obligation(variant):
         v_se2a, v_xy, v_se3, v_xyz, v_se2b = vtoks(4), vtoks(3), vtoks(8, unit=(4, 5, 6, 7)), vtoks(4), vtoks(4)
         v_lonely1, v_lonely2 = vtoks(3), vtoks(8, unit=(4, 5, 6, 7))       # vertices that no edge refers to
         half = [v_se2b[0], v_se2a[0]] + toks(3 + 6)      # an edge that the file lists twice (two identical half-information edges)
-        seq = [("PARAMS_SE3OFFSET", pvals), ("junk", "# a comment line" + end), ("VERTEX_SE2", v_se2a), ("blank", end),
+        seq = [("PARAMS_SE3OFFSET", pvals), ("junk", "# a comment line" + end), ("junk", "# another comment line" + end), ("VERTEX_SE2", v_se2a), ("blank", end),
                ("VERTEX_XY", v_xy), ("junk", "FIX 0" + end), ("VERTEX_SE3:QUAT", v_se3), ("blank", "   " + end), ("VERTEX_XY", v_lonely1),
-               ("VERTEX_TRACKXYZ", v_xyz), ("EDGE_SE2", [v_se2b[0], v_se2a[0]] + toks(3 + 6)), ("junk", "VERTEX_SE2_EXTRA 1 2 3 4" + end),
+               ("VERTEX_TRACKXYZ", v_xyz), ("EDGE_SE2", [v_se2b[0], v_se2a[0]] + toks(3 + 6)), ("junk", "VERTEX_SE2_EXTRA 1 2 3 4" + end), ("junk", "FIX 7" + end),
                ("EDGE_SE3_TRACKXYZ", [v_se3[0], v_xyz[0], pvals[0]] + toks(3 + 6)), ("PARAMS_SE2OFFSET", p2vals),
                ("EDGE_SE2_XY", [v_se2a[0], v_xy[0]] + toks(2 + 3)), ("junk", "EDGE_SE2X 1 2" + end),
                ("EDGE_SE3:QUAT", [v_se3[0], v_se3[0]] + toks(7 + 21, unit=(3, 4, 5, 6))), ("VERTEX_SE2", v_se2b), ("EDGE_SE2", half),
